@@ -21,7 +21,7 @@ PROPS = {
     'C10': {'units': ['sched'], 'kani': []},
     'C18': {'units': ['dsu'], 'kani': []},
     'C14': {'units': ['pack'], 'kani': []},
-    'C12': {'units': ['bits', 'chal'], 'kani': [], 'only': {'chal': r'canonical_width'}},
+    'C12': {'units': ['bits', 'chal', 'coef', 'rcair'], 'kani': [], 'only': {'chal': r'canonical_width'}},
     'C15': {'units': ['shape', 'openin'], 'kani': [], 'only': {'openin': r'per_matrix_shape_and_grouping|compute_single_reduced_opening|height_group'}},
     'C13': {'units': ['sym', 'symx'], 'kani': []},
     'C09': {'units': ['prep'], 'kani': []},
@@ -121,8 +121,13 @@ META['C12'] = {
     'text': 'Deductive proof over an abstract field that reconstruct_index_from_bits / decompose_to_bits make every bit target boolean and tie the weighted sum to the decomposed value '
             'whenever the asserted constraints hold (for every bit width, chunking and extension degree), and — over the integers — that a boolean n-bit vector congruent to x mod P '
             'with 2^n <= P is the binary expansion of x (lemma_canonical_unique, lemma_bits_injective). The proviso 2^n <= P is a precondition (canonical_width) that each caller must '
-            'establish; the call in CircuitChallenger::sample_bits does not (finding C12-noncanonical-bits), every other obligation is discharged.',
-    'note': 'Covers the bit half of C12. NOT covered: coefficient decompositions (decompose_ext_to_base_coeffs / recompose): that every coefficient is a base-field element is not under contract. '
+            'establish; the call in CircuitChallenger::sample_bits does not (finding C12-noncanonical-bits), every other obligation is discharged. '
+            'Coefficient half (units coef, rcair): RecomposeAir::eval is proved to put exactly (output_idx, row) per lane on the bus (plus one (coeff_idx_i, row_i, 0..) tuple per coefficient in the wide variant) and no '
+            'constraint; on that table semantics recompose_via_npo, the table-or-ALU dispatch of recompose_base_coeffs_to_ext_impl (ALU chain = sum c_i e_i, loop invariant) and the hint path of '
+            'decompose_ext_to_base_coeffs are under the contract "in every accepted proof the coefficients recompose to x and are base-field elements". Two hypotheses fail on the unchanged tree and are recorded '
+            'findings with forged proofs: the narrow table binds its output to nothing (C12-recompose-table-output-unbound), and without the coefficient table nothing forces base-field coefficients '
+            '(C12-coefficients-not-forced-into-base-field).',
+    'note': 'NOT covered: the provenance-cache, constant-fold and select-provenance shortcuts of decompose/recompose; the wide table is modelled optimistically (see the finding text). '
             'Assumed: builder arithmetic/assert contracts; e_i*2^j constant abstracted to basis_pow2(i,j); the link between weighted_sum over the field and bits_value over the integers '
             '(characteristic P, embedding of base elements) is an informal step; 64-bit usize.',
 }
